@@ -187,7 +187,86 @@ def classify_lzma2_overrun(H, coder, data, pair=()):
     return False
 
 
+def xz_blocks(data):
+    """Blocks of the first Stream of an .xz file as far as the headers parse: (data_start, data_end_or_None, declared
+    uncompressed size or None, lzma2 end offset found by walking the chunks or None)."""
+    out = []
+    n = len(data)
+    if n < 12 or data[:6] != b"\xfd7zXZ\x00":
+        return out
+    csz = CHECK_SIZE[data[7] & 0x0F]
+    o = 12
+    while o < n and data[o] != 0:
+        bstart = o
+        hs = (data[o] + 1) * 4
+        if o + hs > n or hs < 8:
+            return out
+        flags = data[o + 1]
+        p = o + 2
+        comp = unc = None
+        if flags & 0x40:
+            comp, p = _vli(data, p)
+            if comp is None:
+                return out
+        if flags & 0x80:
+            unc, p = _vli(data, p)
+            if unc is None:
+                return out
+        ds = o + hs
+        end = None
+        for ch in lzma2_chunks(data, ds):
+            if ch[0] == "E":
+                end = ch[3]
+        out.append((ds, ds + comp if comp is not None else None, unc, end))
+        if comp is not None:
+            e = ds + comp
+        elif end is not None:
+            e = end
+        else:
+            return out
+        o = e + (-(e - bstart)) % 4 + csz
+    return out
+
+
+def classify_block_lookahead(H, coder, data, pair):
+    """True iff the two differing results are the same rejection (LZMA_DATA_ERROR) with identical output bytes that equal everything
+    the Block Header(s) declare up to and including some Block with a declared Uncompressed Size, and they differ only in how many
+    further bytes of that Block's compressed data were consumed before the error: block_decode()'s
+    `if (uncomp_done && *in_pos < in_size) return LZMA_DATA_ERROR;` looks at what the current call happens to have been offered."""
+    kind = coder.split(":")[0]
+    if len(pair) != 2 or any(q is None or q["ret"] != 9 for q in pair):
+        return False
+    a, b = pair
+    if (a["len"], a["hash"], a["out"]) != (b["len"], b["hash"], b["out"]):
+        return False
+    if kind in ("sd", "auto", "sdmt"):
+        blocks = xz_blocks(data)
+        base = 0
+    elif kind == "blockd":
+        if not data:
+            return False
+        fake = b"\xfd7zXZ\x00\x00" + bytes([int(coder.split(":")[1]) & 0x0F]) + b"\0\0\0\0" + data
+        blocks = [(ds - 12, (de - 12) if de is not None else None, u, (e - 12) if e is not None else None) for (ds, de, u, e) in xz_blocks(fake)[:1]]
+        base = (data[0] + 1) * 4
+        blocks = [(ds - base, (de - base) if de is not None else None, u, e) for (ds, de, u, e) in blocks]
+    else:
+        return False
+    ucum = 0
+    for (ds, de, unc, end) in blocks:
+        if unc is None:
+            return False
+        ucum += unc
+        if a["out"] == ucum:
+            hi = de if de is not None else len(data)
+            ins = [a["in"], b["in"]]
+            if kind == "sdmt":
+                return True    # the threaded decoder's total_in is not compared anyway; outputs are equal here
+            return all(ds < x <= hi for x in ins)
+    return False
+
+
 KEY_OVERRUN = "C06:lzma2-chunk-overrun"
+KEY_LOOKAHEAD = "C06:block-decoder-uncomp-done-lookahead"
 MAX_REPORTS = 25   # replay files written per run; further differences are only counted
 
 
@@ -962,7 +1041,12 @@ def oracle(ctx, H):
                 if not differs:
                     res = [ref[0]["text"], dm.group(2)]
                 key = None
-                if ref[0]["ret"] == 9 and classify_lzma2_overrun(H, s["coder"], s["data"], [parse_results(x)[0] if parse_results(x) else None for x in res]):
+                pair = [parse_results(x)[0] if parse_results(x) else None for x in res]
+                if ref[0]["ret"] == 9 and classify_block_lookahead(H, s["coder"], s["data"], pair):
+                    key = KEY_LOOKAHEAD
+                    ctx.count("finding:block-decoder-lookahead")
+                    note += " [Block decoder: with all declared output produced, `uncomp_done && *in_pos < in_size` depends on how much input the current call was offered]"
+                elif ref[0]["ret"] == 9 and classify_lzma2_overrun(H, s["coder"], s["data"], pair):
                     key = KEY_OVERRUN
                     ctx.count("finding:lzma2-chunk-overrun")
                     note += " [LZMA2 chunk overrun: lzma2_decode() lets the LZMA decoder read past the chunk's compressed size and reports the error afterwards]"
@@ -1063,6 +1147,7 @@ def run(ctx):
         "thread schedules of the MT coders are those the OS produced during the run (systematic schedule exploration belongs to C07/C08)",
         "file-info decoder: only status and the resulting index are compared (the amount read around a seek depends on how much each call shows, by design)",
         "lzma_microlzma_decoder with uncomp_size_is_exact=false: only status and output bytes are compared (the API declares the size inexact; how far the range decoder has read when the requested output is complete varies by one byte with the slicing)",
+        "known finding C06:block-decoder-uncomp-done-lookahead (findings/C06-block-decoder-lookahead.md) is attributed only when both runs return LZMA_DATA_ERROR with byte-identical output equal to everything the Block Headers declare up to a Block with a declared Uncompressed Size, and both total_in values lie inside that Block's compressed data",
         "known finding C06:lzma2-chunk-overrun (findings/C06-lzma2-chunk-overrun.md) is attributed only when both runs return LZMA_DATA_ERROR and an independent walk of the container and LZMA2 chunk headers shows the byte-at-a-time decoder failing exactly at chunk_end+1 inside an LZMA chunk",
     ]
     p_ok = ctx.lean_stage(["XzVerif.Props.C06"], exes=["xzm_c06"])
